@@ -5,7 +5,10 @@ Decides:
  S  stream table   print_message prints Stdout and Completion with std::io::_print and Stderr with
                    std::io::_eprint, and nothing else prints in the other arm; the text printed is the
                    payload (render_console(full-of-the-variant | true, colour, max_width) / the completion
-                   string verbatim with template "{}").
+                   string verbatim with template "{}"); arms and the full/short switch are obtained from one abstract
+                   walk per variant of *self, however the match is written.
+ K  completion marker  check_next recognises `--bpaf-complete-rev=N` whether or not the program name is known, so a real
+                   process (run(), argv[0] known) answers a completion request the way run_inner predicts.
  R  run flow       OptionParser::run = run_inner(Args::current_args()); Ok -> return that value, no print,
                    no exit; Err -> print_message(err, self.info.max_width) dominates
                    process::exit(exit_code(err)); Parser::run delegates to it.
